@@ -239,6 +239,80 @@ func c09ObjCheck(c *fw.Ctx, s c09Spec) *fw.Violation {
 	return v
 }
 
+// ----- mixed histories: statements from every corner of the language, interleaved -----
+
+func c09MixStmts() []struct {
+	name string
+	st   func() Stmt
+} {
+	a, o, n, sv := func() Expr { return V("a") }, func() Expr { return V("o") }, func() Expr { return V("n") }, func() Expr { return V("s") }
+	call := func(recv Expr, m string, args ...Expr) Expr { return CallE(Mem(recv, m), args...) }
+	return []struct {
+		name string
+		st   func() Stmt
+	}{
+		{"a = [3, 1, 2]", func() Stmt { return Ex(Asg("=", a(), Arr_(N("3"), N("1"), N("2")))) }},
+		{"o = {k: 1, j: [5]}", func() Stmt { return Ex(Asg("=", o(), &ObjLit{Keys: []string{"k", "j"}, Vals: []Expr{N("1"), Arr_(N("5"))}})) }},
+		{"n = n + 1", func() Stmt { return Ex(Asg("=", n(), Bin("+", n(), N("1")))) }},
+		{"a.push(n)", func() Stmt { return Ex(call(a(), "push", n())) }},
+		{"b = a", func() Stmt { return Ex(Asg("=", V("b"), a())) }},
+		{"b.pop()", func() Stmt { return Ex(call(V("b"), "pop")) }},
+		{"o.j.push(a.length())", func() Stmt { return Ex(call(Mem(o(), "j"), "push", call(a(), "length"))) }},
+		{"p = o.pluck('k','j'); p.j.push(0); p.k = 9", func() Stmt {
+			return Blk(Ex(Asg("=", V("p"), call(o(), "pluck", S("k"), S("j")))), Ex(call(Mem(V("p"), "j"), "push", N("0"))), Ex(Asg("=", Mem(V("p"), "k"), N("9"))))
+		}},
+		{"t = s.split(','); t[0] = 'Z'", func() Stmt {
+			return Blk(Ex(Asg("=", V("t"), call(sv(), "split", S(",")))), Ex(Asg("=", Idx(V("t"), N("0")), S("Z"))))
+		}},
+		{"for (v in a) n += v", func() Stmt { return &ForIn{V: "v", Iter: a(), Body: Ex(Asg("+=", n(), V("v")))} }},
+		{"for (k, v in o) q[k] = v", func() Stmt { return &ForIn{V: "k", W: "v", Iter: o(), Body: Ex(Asg("=", Idx(V("q"), V("k")), V("v")))} }},
+		{"r = match (a) {...}", func() Stmt {
+			return Ex(Asg("=", V("r"), &MatchExpr{Subj: a(), Cases: []MatchCase{
+				{Pats: []Expr{Arr_(V("x"), V("y"), V("z"))}, Body: Bin("+", V("x"), V("z"))},
+				{Pats: []Expr{Arr_(V("x"))}, Body: V("x")}, {Pats: []Expr{V("w")}, Body: call(V("w"), "length")}}}))
+		}},
+		{"r = match (n) {...}", func() Stmt {
+			return Ex(Asg("=", V("r"), &MatchExpr{Subj: n(), Cases: []MatchCase{
+				{Pats: []Expr{N("1")}, Body: S("one")}, {Pats: []Expr{N("2"), N("3")}, Body: S("few")}, {Pats: []Expr{V("m")}, Body: Bin("*", V("m"), N("2"))}}}))
+		}},
+		{"grow(a)", func() Stmt { return Ex(CallE(V("grow"), a())) }},
+		{"n = dflt(n)", func() Stmt { return Ex(Asg("=", n(), CallE(V("dflt"), n()))) }},
+		{"a = a.sort()", func() Stmt { return Ex(Asg("=", a(), call(a(), "sort"))) }},
+		{"o.k++", func() Stmt { return Ex(&Postfix{"++", Mem(o(), "k")}) }},
+		{"a[a.length()] = $", func() Stmt { return Ex(Asg("=", Idx(a(), call(a(), "length")), V("$"))) }},
+		{"o[s] = a", func() Stmt { return Ex(Asg("=", Idx(o(), sv()), a())) }},
+		{"if (a.contains(2)) a.popfirst() else a.push(2)", func() Stmt {
+			return &If{Cond: call(a(), "contains", N("2")), Then: Ex(call(a(), "popfirst")), Else: Ex(call(a(), "push", N("2")))}
+		}},
+		{"while (a.length() > 3) a.pop()", func() Stmt { return &While{Cond: Bin(">", call(a(), "length"), N("3")), Body: Ex(call(a(), "pop"))} }},
+		{"u = a[5]; u2 = o.none.deeper", func() Stmt {
+			return Blk(Ex(Asg("=", V("u"), Idx(a(), N("5")))), Ex(Asg("=", V("u2"), Mem(Mem(o(), "none"), "deeper"))))
+		}},
+		{"printf", func() Stmt { return Ex(CallE(V("printf"), S("%4v|%s|%f\n"), a(), sv(), n())) }},
+		{"s = s + n", func() Stmt { return Ex(Asg("=", sv(), Bin("+", sv(), n()))) }},
+		{"c = [a, a]; c[0].push(7)", func() Stmt { return Blk(Ex(Asg("=", V("c"), Arr_(a(), a()))), Ex(call(Idx(V("c"), N("0")), "push", N("7")))) }},
+		{"$.seen = n", func() Stmt { return &If{Cond: &IsExpr{V("$"), "object"}, Then: Ex(Asg("=", Mem(V("$"), "seen"), n()))} }},
+	}
+}
+
+var c09MixFuncs = []*Func{
+	{Name: "grow", Params: []string{"arr"}, Body: Blk(Ex(CallE(Mem(V("arr"), "push"), S("g"))), Ex(Asg("=", V("arr"), N("0"))))},
+	{Name: "dflt", Params: []string{"v", "step"}, Body: Blk(&If{Cond: &IsExpr{V("step"), "null"}, Then: Ex(Asg("=", V("step"), N("10")))}, &Return{X: Bin("+", V("v"), V("step"))})},
+}
+
+func c09MixProg(s c09Spec) *progCase {
+	stmts := c09MixStmts()
+	body := []Stmt{Ex(Asg("=", V("a"), Arr_(N("4")))), Ex(Asg("=", V("o"), &ObjLit{Keys: []string{"k"}, Vals: []Expr{N("0")}})), Ex(Asg("=", V("s"), S("x,y"))), Ex(Asg("=", V("b"), Arr_())), Ex(Asg("=", V("q"), &ObjLit{}))}
+	for _, i := range s.Seq {
+		body = append(body, stmts[i].st())
+	}
+	for _, v := range []string{"a", "b", "o", "p", "t", "n", "q", "r", "c", "u", "u2", "s", "$"} {
+		body = append(body, showS(v, V(v)))
+	}
+	// the rule runs for two elements: n, p, t, r, c, u survive from the first into the second round, the literals are rebuilt
+	return &progCase{P: &Program{Funcs: append([]*Func{c09Show}, c09MixFuncs...), Rules: []*Rule{{Body: Blk(body...)}}}, Files: []inFile{{"in.json", `[1,{"x":2}]`}}, Root: true}
+}
+
 func init() {
 	var docs1, docs2 *docGen
 	setup := func() {
@@ -253,8 +327,10 @@ func init() {
 		Rule: "documents (all trees of depth <= 1, thorough also depth 2) x target paths of <= 3 steps over .a .b ['a'] and the indices 0 1 -1 2 5 0.9 -0.5 1048577, rooted at $, at a variable aliasing the document and at a fresh variable, x 7 stores (=, +=, prefix and postfix ++/--, storing a container) and 9 reads (plain, non-mutating methods, operators); " +
 			"after the operation the program shows the result, $, the alias and the fresh variable, ENDFILE shows $ again and the JSON output is compared with the model's document; " +
 			"all histories of <= L statements over 14 aliasing / mutating statements (copy, share, index and member stores, push/pop through aliases, a mutating callee, loop variables, padding) on three documents, showing every variable after every statement; all histories of L statements over 12 object statements (inserts through an alias or a callee, iteration and printing through the other name, pluck, rebinding); " +
-			"every target path of <= 2 steps x operation also as ONE expression site over the sequence of all documents (forward and reversed); oracle: whole-store equality with the reference interpreter (DESIGN.md 3.10); states = (read/write, root, path length, outcome); non-trivial = same",
-		Plan: func(t fw.Tier) int { return len(c09Roots)*nSt + len(c09Roots) + len(c09HistStmts())*len(c09HistDocs) + len(c09ObjStmts()) + nSt },
+			"all histories of L' statements over 26 statements drawn from every corner of the language (arrays, objects, strings, pluck, split, sort, match, for-in, functions with default parameters, printf, stores into $), run once per element of a two-element input; every target path of <= 2 steps x operation also as ONE expression site over the sequence of all documents (forward and reversed); oracle: whole-store equality with the reference interpreter (DESIGN.md 3.10); states = (read/write, root, path length, outcome); non-trivial = same",
+		Plan: func(t fw.Tier) int {
+			return len(c09Roots)*nSt + len(c09Roots) + len(c09HistStmts())*len(c09HistDocs) + len(c09ObjStmts()) + nSt + len(c09MixStmts())*len(c09MixStmts())
+		},
 		Bound: func(t fw.Tier) string {
 			setup()
 			if t == fw.Thorough {
@@ -306,6 +382,27 @@ func init() {
 				return
 			}
 			u -= nPathUnits
+			if u >= len(c09HistStmts())*len(c09HistDocs)+len(c09ObjStmts())+nSt {
+				u -= len(c09HistStmts())*len(c09HistDocs) + len(c09ObjStmts()) + nSt
+				nm := len(c09MixStmts())
+				L := c.Pick(3, 4)
+				seq := make([]int, L)
+				seq[0], seq[1] = u/nm, u%nm
+				var rec func(i int)
+				rec = func(i int) {
+					if i == L {
+						s := c09Spec{Form: "mix", Seq: append([]int{}, seq...)}
+						c.Do(func() any { s.Text = c09MixProg(s).source(); return s }, func() *fw.Violation { v, _, _ := c09MixProg(s).check(c); return v })
+						return
+					}
+					for k := 0; k < nm; k++ {
+						seq[i] = k
+						rec(i + 1)
+					}
+				}
+				rec(2)
+				return
+			}
 			if u >= len(c09HistStmts())*len(c09HistDocs)+len(c09ObjStmts()) {
 				first := u - len(c09HistStmts())*len(c09HistDocs) - len(c09ObjStmts())
 				var docs []string
@@ -367,6 +464,10 @@ func init() {
 			}
 			if s.Form == "objhist" {
 				return c09ObjCheck(c, s)
+			}
+			if s.Form == "mix" {
+				v, _, _ := c09MixProg(s).check(c)
+				return v
 			}
 			if s.Form == "pathstream" {
 				var docs []string
